@@ -219,6 +219,7 @@ class C09:
                     if dbef == dbef:
                         m['_min_delta'] = min(m['_min_delta'], dbef)
                     m['_last_acc'] = acc
+                    m['_last_obs'] = (rn, fx, ln, dd, dec(words[o + 4], 'f64'), rho)
                     n_iter_cmp += 1
                     cls = 'nan' if math.isnan(rho) else ('inf' if math.isinf(rho) else ('<=0' if rho <= 0 else '>0'))
                     cov['rho_classes'][cls] = cov['rho_classes'].get(cls, 0) + 1
@@ -291,6 +292,25 @@ class C09:
                 if m['status'] in (0, 1) and not (m.get('_K', 0) > 0 and m.get('_last_acc') == 1.0):
                     add('MaxIters_iff', m['status'], 2, 'Ftol/Ptol reported although the last iteration did not accept a step '
                         '(the convergence tests are only evaluated after an accepted step)')
+                if m['status'] == 2 and m.get('_K', 0) > 0 and m.get('_last_acc') == 1.0 and '_last_obs' in m:
+                    # converse (seed C09e): MaxIters must NOT be reported when a convergence test fired on the last permitted
+                    # iteration.  The tests are recomputed here from the logged observables, independently of the model
+                    # (optim.hpp: r_n == 0 || (|actu_red| < ftol && pred_red < ftol && rho <= 2) -> Ftol; |d.dx| < ptol*n -> Ptol),
+                    # with a relative margin of 1e-9 so that a value exactly at a tolerance is not judged.
+                    rn_, fx_, ln_, dd_, n_, rho_ = m['_last_obs']
+                    fired = None
+                    if rn_ == 0:
+                        fired = 'Ftol (zero residual)'
+                    else:
+                        actu_, pred_ = 1.0 - (fx_ / rn_) ** 2, 1.0 - (ln_ / rn_) ** 2
+                        if abs(actu_) < ftol * (1 - 1e-9) and pred_ < ftol * (1 - 1e-9) and rho_ <= 2.0:
+                            fired = 'Ftol'
+                        elif dd_ < ptol * n_ * (1 - 1e-9):
+                            fired = 'Ptol'
+                    if fired:
+                        add('MaxIters_iff', 2, 0 if fired.startswith('F') else 1,
+                            f'status MaxIters although the {fired} test is met by the last accepted iteration (iter = max_iter = '
+                            f"{m['max_iter']}): the solver stopped because it converged, not because the budget ran out")
                 if m['ncb'] > 1 + m['iter']:
                     add('callback_count', m['ncb'], 1 + m['iter'], 'more callbacks than 1 + iterations')
                 # (2) monotone cost over the callback points, float-evaluated f
